@@ -557,6 +557,8 @@ class Interp:
             return [(st, V_s(st.kclass(0)))]
         if k == 'null':
             return [(st, V_s(st.kclass(0)))]
+        if k == 'var' and frame.vars.get(e['id'], ('', None))[0] == 'fnval':
+            return [(st, ('fn', frame.vars[e['id']][1]))]
         if k in ('this', 'var', 'mem', 'idx'):
             out = []
             for s2, loc in self.lv(e, frame, st):
@@ -589,6 +591,8 @@ class Interp:
                     self.on_write(s2, loc, frame, e)
                     out.append((s2, V_s(old if e.get('post') else s2.get(loc))))
                 return out
+            if op == '&' and ir.strip(e['e'])['k'] == 'fnref':
+                return [(st, ('fn', ir.strip(e['e'])))]
             if op in ('*', '&'):
                 out = []
                 for s2, loc in self.lv(e['e'], frame, st):
@@ -674,7 +678,9 @@ class Interp:
                     s2.set_unknown(loc)
                     out.append((s2, V_o(loc)))
             return out
-        if k in ('fnref', 'memptr', 'str', 'typeid', 'float'):
+        if k == 'fnref':
+            return [(st, ('fn', e))]
+        if k in ('memptr', 'str', 'typeid', 'float'):
             return [(st, V_U)]
         if k == 'arraycopy':
             return self.ev(e['src'], frame, st)
@@ -726,7 +732,12 @@ class Interp:
         if e.get('fn') is not None:
             return self.F.fn(e['fn']), e
         if e.get('pm'):
-            r = self.E.resolve_pm(frame.fn, e)
+            r = None
+            p = ir.strip(e['pm']['ptr'])
+            if p['k'] == 'var' and frame.vars.get(p['id'], ('', None))[0] == 'fnval':
+                r = frame.vars[p['id']][1]
+            if r is None:
+                r = self.E.resolve_pm(frame.fn, e)
             if r is not None and r.get('fn') is not None:
                 return self.F.fn(r['fn']), dict(e, obj=e['pm']['obj'], m=r.get('m'), cls=r.get('cls'), ext=r.get('ext'), defloc=r.get('defloc'))
         return None, e
@@ -841,6 +852,10 @@ class Interp:
                 else:
                     loc = ('F', nf.fid, p['n'] or ('p%d' % i))
                     for s3, v in self.ev(a, frame, s2):
+                        if v[0] == 'fn':
+                            nf.vars[p['id']] = ('fnval', v[1])
+                            nxt.append(s3)
+                            continue
                         if v[0] == 'o':
                             s3.copy_obj(loc, v[1])
                         else:
@@ -1151,6 +1166,10 @@ class Interp:
             return self.construct_expr(x, loc, frame, st)
         out = []
         for s2, val in self.ev(init, frame, st):
+            if val[0] == 'fn':
+                frame.vars[v['id']] = ('fnval', val[1])
+                out.append(s2)
+                continue
             if val[0] in ('o', 'lv') and v.get('cls'):
                 s2.copy_obj(loc, val[1])
                 self.on_obj_copy(s2, loc, val[1], frame, init)
